@@ -87,6 +87,16 @@ def run_shard(spec, res):
             al = H.Alphabet(rng, w=rng.choice([3, 4]), nvars=rng.choice([2, 3]), nbools=0)
             _, steps = H.history(rng, length=rng.choice([5, 8, 11, 15]), al=al, maint=True, p_extra=0.25)
             steps = [st for st in steps if st["s"] == 0]
+            if it % 3 == 2:
+                # a store that is unsatisfiable for a reason only the backend can see, in constraints over one variable,
+                # next to satisfiable constraints over another (two groups for a solver that splits by variable): the
+                # give-up hits the first check that would have found it
+                x_, y_ = al.v(0), al.v(1)
+                m_ = (1 << al.w) - 1
+                unsat_x = rng.choice([[["eq", ["mul", x_, x_], ["bvv", 2, al.w]]], [["ult", ["or", x_, ["bvv", 4, al.w]], ["bvv", 4, al.w]]], [["ugt", ["mul", x_, ["bvv", 2, al.w]], ["bvv", m_ - 1, al.w]]]])
+                steps = [{"op": "add", "s": 0, "cons": unsat_x}, {"op": "add", "s": 0, "cons": [[rng.choice(["ult", "ugt", "ne"]), y_, ["bvv", rng.randrange(1, m_), al.w]]]}]
+                steps += [rng.choice([{"op": "satisfiable", "s": 0, "extra": []}, {"op": "eval", "s": 0, "e": y_, "n": 2, "extra": []}, {"op": "max", "s": 0, "e": y_, "signed": False, "extra": []}]), {"op": "satisfiable", "s": 0, "extra": []}, {"op": "eval", "s": 0, "e": y_, "n": 3, "extra": []}, {"op": "satisfiable", "s": 0, "extra": [[rng.choice(["ult", "ne"]), y_, ["bvv", rng.randrange(1, m_), al.w]]]}]
+                res.count("directed_unsat_group_histories")
             # clean run: count checks per step
             run = api.Run(res.__class__(PID), al.vars, cls, PID, cfg=cfg, keep=keep)  # throw-away result
             counts = []
